@@ -29,6 +29,9 @@ def comp(fn, ty, lty, rot, readf):
 
 # the build the hand model `Impl.Blake2.Engine.compress` describes: x86_64 without `-C target-feature=+avx/+avx2`
 # (the AVX / AVX2 dispatch targets are modelled and tied separately by unit `simd`, property C16)
+# The OTHER cfg sets (+sse4.1, +avx, +avx2) of `EngineB/EngineS::compress` — which `return avx2::compress_b(..)` / `avx::compress_b/s(..)` —
+# are translated by tools/kernels/sha2_dispatch.py (ktx_glue.py after cfg resolution; the dispatch targets are the generated definitions of
+# Extracted/GlueSimd.lean) into Extracted/GlueSha2Disp.lean and tied by Props/C16/GlueTieSha2Disp.lean (audit 3, F1).
 CFG = {'target_arch = "x86"': False, 'target_arch = "x86_64"': True, 'target_feature = "avx"': False, 'target_feature = "avx2"': False}
 FM = "src/hashing/blake2/mod.rs"
 
